@@ -29,7 +29,8 @@ def run(chk):
     c01.run(chk, crate=MSL, P="C02")
     rule_sibling_ops(chk)
     rule_thread(chk)
-    rule_usage(chk)
+    if not rule_usage_eval(chk):
+        rule_usage(chk)
     rule_out(chk)
     rule_trampoline_when(chk)
     rule_operand_repeated(chk)
@@ -182,6 +183,115 @@ def rule_thread(chk):
                         ok = True
         chk.ob("C02.thread/appended/%s" % fn["name"], ok, "the call's argument vector receives the global arguments before the Call node is built" if ok else
                "%s builds a user call whose arguments were not extended by append_arguments_for_globals" % fn["name"], where(fn))
+
+
+def rule_usage_eval(chk, prefix="C02.usage"):
+    """GlobalUsageAnalysis::calculate read as a function of the module: one function whose body has a distinct global
+    planted in every expression position of every statement and expression kind (conditions, branches, loop parts,
+    initialisers, call arguments, constructor slots, subscripts, members, casts, operators), calling a chain of two more
+    functions that reach another global and a constant buffer; a fourth function that nobody calls. What a function
+    requires must be exactly what it mentions plus what its callees require - in both hash orders."""
+    import interp as I
+    f = chk.facts
+    calc = f.fn("calculate", "rssl_ir", self_ty="GlobalUsageAnalysis")
+    get = f.fn("get_usage_for_function", "rssl_ir")
+    if not calc or not get:
+        return False
+    opt = lambda v: I.Enum("Option", "None") if v is None else I.Enum("Option", "Some", {"0": v})
+    fid = lambda i: I.Enum("FunctionId", None, {"0": i})
+    gid = lambda i: I.Enum("GlobalId", None, {"0": i})
+    counter = [0]
+    planted = {}
+
+    def G(where_):
+        counter[0] += 1
+        planted[counter[0]] = where_
+        return I.Enum("Expression", "Global", {"0": gid(counter[0])})
+    X = lambda v, **fl: I.Enum("Expression", v, {str(k)[1:]: x for k, x in fl.items()})
+    lit = I.Enum("Expression", "Literal", {"0": I.Enum("Constant", "Int32", {"0": 1})})
+    var = I.Enum("Expression", "Variable", {"0": I.Enum("VariableId", None, {"0": 0})})
+    stmt = lambda kind, *a: I.Enum("Statement", None, {"kind": I.Enum("StatementKind", kind, {str(i): v for i, v in enumerate(a)}), "location": I.Opaque("location"), "attributes": []})
+    block = lambda *ss: I.Enum("ScopeBlock", None, {"0": list(ss), "1": I.Opaque("declarations")})
+    es = lambda w: stmt("Expression", G(w))
+    iexpr = lambda w: I.Enum("Initializer", "Expression", {"0": G(w)})
+    body0 = block(
+        stmt("Expression", G("expression statement")),
+        stmt("Var", I.Enum("VarDef", None, {"id": 0, "init": opt(iexpr("variable initialiser"))})),
+        stmt("Var", I.Enum("VarDef", None, {"id": 1, "init": opt(I.Enum("Initializer", "Aggregate", {"0": [iexpr("aggregate initialiser element"), I.Enum("Initializer", "Aggregate", {"0": [iexpr("nested aggregate element")]})]}))})),
+        stmt("Block", block(es("nested block"))),
+        stmt("If", G("if condition"), block(es("if body"))),
+        stmt("IfElse", G("if-else condition"), block(es("if-else true branch")), block(es("if-else false branch"))),
+        stmt("For", I.Enum("ForInit", "Expression", {"0": G("for init expression")}), opt(G("for condition")), opt(G("for increment")), block(es("for body"))),
+        stmt("For", I.Enum("ForInit", "Definitions", {"0": [I.Enum("VarDef", None, {"id": 2, "init": opt(iexpr("for init declaration"))})]}), opt(None), opt(None), block()),
+        stmt("While", G("while condition"), block(es("while body"))),
+        stmt("DoWhile", block(es("do body")), G("do-while condition")),
+        stmt("Switch", G("switch value"), block(stmt("CaseLabel", I.Enum("Constant", "Int32", {"0": 1})), es("switch body"), stmt("Break"), stmt("DefaultLabel"), stmt("Continue"), stmt("Discard"))),
+        stmt("Return", opt(G("returned value"))),
+        stmt("Expression", I.Enum("Expression", "TernaryConditional", {"0": G("ternary condition"), "1": G("ternary true value"), "2": G("ternary false value")})),
+        stmt("Expression", I.Enum("Expression", "Sequence", {"0": [G("sequence first"), lit, G("sequence last")]})),
+        stmt("Expression", I.Enum("Expression", "Swizzle", {"0": G("swizzled value"), "1": []})),
+        stmt("Expression", I.Enum("Expression", "MatrixSwizzle", {"0": G("matrix-swizzled value"), "1": []})),
+        stmt("Expression", I.Enum("Expression", "ArraySubscript", {"0": G("subscripted value"), "1": G("subscript index")})),
+        stmt("Expression", I.Enum("Expression", "StructMember", {"0": G("struct member object"), "1": I.Enum("StructId", None, {"0": 0}), "2": 0})),
+        stmt("Expression", I.Enum("Expression", "ObjectMember", {"0": G("object member object"), "1": "Load"})),
+        stmt("Expression", I.Enum("Expression", "Call", {"0": fid(1), "1": I.Enum("CallType", "FreeFunction"), "2": [var, G("call argument"), G("second call argument")]})),
+        stmt("Expression", I.Enum("Expression", "Constructor", {"0": I.Opaque("type"), "1": [I.Enum("ConstructorSlot", None, {"arity": 1, "expr": G("constructor slot")}),
+                                                                                                I.Enum("ConstructorSlot", None, {"arity": 1, "expr": G("second constructor slot")})]})),
+        stmt("Expression", I.Enum("Expression", "Cast", {"0": I.Opaque("type"), "1": G("cast operand")})),
+        stmt("Expression", I.Enum("Expression", "IntrinsicOp", {"0": I.Enum("IntrinsicOp", "Add"), "1": [G("operator left operand"), G("operator right operand")]})),
+        stmt("Expression", I.Enum("Expression", "IntrinsicOp", {"0": I.Enum("IntrinsicOp", "Assignment"), "1": [var, I.Enum("Expression", "Cast", {"0": I.Opaque("type"), "1": I.Enum("Expression", "ArraySubscript", {"0": var, "1": G("deeply nested operand")})})]})),
+        stmt("Expression", I.Enum("Expression", "SizeOf", {"0": I.Opaque("type")})), stmt("Expression", I.Enum("Expression", "EnumValue", {"0": I.Opaque("enum value")})),
+        stmt("Return", opt(None)),
+    )
+    n_planted = counter[0]
+    g_far, g_unused, g_mid = n_planted + 1, n_planted + 2, n_planted + 3
+    cbm = I.Enum("Expression", "ConstantVariable", {"0": I.Enum("ConstantBufferMemberId", None, {"0": I.Enum("ConstantBufferId", None, {"0": 0}), "1": 2})})
+    bodies = {0: body0,
+              1: block(stmt("Expression", I.Enum("Expression", "Global", {"0": gid(g_mid)})), stmt("Return", opt(I.Enum("Expression", "Call", {"0": fid(2), "1": I.Enum("CallType", "FreeFunction"), "2": []})))),
+              2: block(stmt("Expression", I.Enum("Expression", "Global", {"0": gid(g_far)})), stmt("Expression", cbm)),
+              3: block(stmt("Expression", I.Enum("Expression", "Global", {"0": gid(g_unused)}))), 4: None}
+
+    def deref(v):
+        return v.get() if isinstance(v, I.Ref) else v
+    ext = {"FunctionRegistry::iter": lambda a: [fid(i) for i in sorted(bodies)],
+           "FunctionRegistry::get_function_implementation": lambda a: opt(None) if bodies[deref(a[1]).fields["0"]] is None else opt(I.Enum("FunctionImplementation", None, {"scope_block": bodies[deref(a[1]).fields["0"]], "params": [], "attributes": []}))}
+    module = I.Enum("Module", None, {"function_registry": I.Opaque("function registry"), "global_registry": [I.Opaque("global")] * (g_mid + 1), "cbuffer_registry": [I.Opaque("cbuffer")]})
+    want = {0: ({i for i in planted} | {g_mid, g_far}, {1, 2}, {0}), 1: ({g_mid, g_far}, {2}, {0}), 2: ({g_far}, set(), {0}), 3: ({g_unused}, set(), set()), 4: (set(), set(), set())}
+    bad = None
+    for reverse in (False, True):
+        ip = I.Interp(f, max_depth=40, extern=ext)
+        ip.max_loop = 4096
+        ip.reverse_hash_order = reverse
+        try:
+            ua = ip.apply(calc, [module])
+            got = {}
+            for i in sorted(bodies):
+                s_ = ip.apply(get, [ua, fid(i)])
+                s_ = s_.get() if isinstance(s_, I.Ref) else s_
+                items = list(s_.items) if isinstance(s_, I.HSet) else list(s_)
+                gl, fn_, cb = set(), set(), set()
+                for x in items:
+                    x = x[0] if isinstance(x, tuple) else x
+                    (gl if x.variant == "GlobalVariable" else fn_ if x.variant == "Function" else cb).add(x.fields["0"].fields["0"])
+                got[i] = (gl, fn_, cb)
+        except I.Unknown as e:
+            if "panicking" in str(e):
+                bad = bad or "GlobalUsageAnalysis::calculate aborts on the model module (%s)" % str(e)[:80]
+                continue
+            chk.note("%s: GlobalUsageAnalysis::calculate is not readable (%s); the shape rule decides" % (prefix, str(e)[:80]))
+            return False
+        for i in sorted(bodies):
+            if got[i] != want[i] and not bad:
+                miss = want[i][0] - got[i][0]
+                if i == 0 and miss - {g_mid, g_far}:
+                    k = sorted(miss - {g_mid, g_far})[0]
+                    bad = "a global read in the %s of a function is not recorded as used by it: a function that only reaches a resource there does not get it passed (Metal), and the binding is reported unused" % planted[k]
+                else:
+                    bad = "function %d requires globals %s, functions %s, constant buffers %s; it must require %s, %s, %s (what it mentions plus what its callees require)%s" % (
+                        i, sorted(got[i][0])[-4:], sorted(got[i][1]), sorted(got[i][2]), sorted(want[i][0])[-4:], sorted(want[i][1]), sorted(want[i][2]), " [hash order reversed]" if reverse else "")
+    chk.ob(prefix + "/model", bad is None, bad or "%d planted positions, a call chain of three and an uncalled function: usage is exact in both hash orders" % n_planted, where(calc), sample={"positions": n_planted})
+    chk.floor(prefix.split(".")[0] + ".floor/usage-positions", n_planted, 40, "expression positions planted", where(calc))
+    return True
 
 
 def rule_usage(chk):
